@@ -468,8 +468,12 @@ Fixpoint resp_struct (q : bool) (lvl : nat) (o : hopts) (fs : list fdesc) (vals 
              end
            | _, _, _ =>
              (* with UseKitexHttpEncoding a mapped container is read by ReadAnyWithDesc, which checks no requiredness *)
-             let c := if o_kitex o && nonempty (f_anns f) && is_complex (f_ty f) then 0 else plain_chk q 8 o (f_ty f) (snd p) in
-             if negb (c =? 0) then mkRexp c [] [] [] else resp_one q o false f (snd p)
+             let c := plain_chk q 8 o (f_ty f) (snd p) in
+             if o_kitex o && nonempty (f_anns f) && is_complex (f_ty f) then
+               (* ... but when the field falls back to the JSON body, the plain conversion runs after all *)
+               let r := resp_one q o false f (snd p) in
+               if nonempty (re_names r) && negb (c =? 0) then mkRexp c [] [] [] else r
+             else if negb (c =? 0) then mkRexp c [] [] [] else resp_one q o false f (snd p)
            end)
       end) vals rexp_empty in
   let absent :=
